@@ -31,12 +31,12 @@ PROPERTY = "C18"
 explorer.PROP = PROPERTY
 
 PHASES = ["pool", "dns", "connect", "body-write", "before-status", "mid-status", "mid-header", "before-body", "mid-chunk",
-          "before-terminator", "mid-length-body", "mid-body-after-pause"]
+          "before-terminator", "mid-length-body", "mid-body-after-pause", "after-interim"]
 COVERS = {
     "total": set(PHASES),
     "connect": {"pool", "dns", "connect"},
     "sock_connect": {"connect"},
-    "sock_read": {"before-status", "mid-status", "mid-header", "before-body", "mid-chunk", "before-terminator", "mid-length-body", "mid-body-after-pause"},
+    "sock_read": {"before-status", "mid-status", "mid-header", "before-body", "mid-chunk", "before-terminator", "mid-length-body", "mid-body-after-pause", "after-interim"},
 }
 FULL = b"HTTP/1.1 200 OK\r\nContent-Length: 4\r\n\r\ndone"
 
@@ -209,6 +209,7 @@ class Scen:
                         data = FULL           # those phases stall earlier; if we get here, just answer
                     else:
                         data = {
+                            "after-interim": b"HTTP/1.1 103 Early Hints\r\nLink: </s.css>\r\n\r\n",     # an interim response, then silence
                             "before-status": b"",
                             "mid-status": b"HTTP/1.1 20",
                             "mid-header": b"HTTP/1.1 200 OK\r\nContent-Le",
